@@ -1,12 +1,24 @@
 """Spec recipes (PuanCtor.tla) -> real objects built with the library's own constructors."""
 
-def build(r, leaf_str=False, via="ctor"):
+_SUB = {}
+def _leaf_subclass():
+    import puan
+    if "c" not in _SUB:
+        class Component(puan.variable):          # a user defined variable sub class is a legitimate leaf
+            pass
+        _SUB["c"] = Component
+    return _SUB["c"]
+
+def build(r, leaf_str=False, via="ctor", style=0):
+    """style: 0 plain; 1 leaves are instances of a puan.variable sub class; 2 AtLeast/AtMost get their arguments as a one-shot
+    generator; 3 as a map object"""
     import puan, puan.logic.plog as pg
     if r["c"] == "leaf":
-        if leaf_str and (r["lo"], r["hi"]) == (0, 1):
+        if leaf_str and (r["lo"], r["hi"]) == (0, 1) and style != 1:
             return r["id"]
-        return puan.variable(r["id"], (r["lo"], r["hi"]))
-    args = [build(x, leaf_str, via) for x in r["a"]]
+        cls = _leaf_subclass() if style == 1 else puan.variable
+        return cls(r["id"], (r["lo"], r["hi"]))
+    args = [build(x, leaf_str, via, style) for x in r["a"]]
     ident = r["id"] or None
     if ident is not None and r.get("f", -1) != -1 and via != "json":
         import puan as _p
@@ -17,10 +29,13 @@ def build(r, leaf_str=False, via="ctor"):
             import puan.modules.configurator as cc
             return cc.StingyConfigurator.from_json(to_json_recipe(r))
         return pg.from_json(to_json_recipe(r))
+    it = args
+    if style == 2: it = (x for x in args)
+    if style == 3: it = map(lambda x: x, args)
     if c == "AtLeast":
-        return pg.AtLeast(r["v"], args, variable=ident, sign=(None if r["s"] == 0 else r["s"]))
+        return pg.AtLeast(r["v"], it, variable=ident, sign=(None if r["s"] == 0 else r["s"]))
     if c == "AtMost":
-        return pg.AtMost(r["v"], args, variable=ident)
+        return pg.AtMost(r["v"], it, variable=ident)
     if c in ("All", "Any", "Xor", "XNor", "ExactlyOne"):
         cls = getattr(pg, c)
         if via == "from_list":
